@@ -76,7 +76,13 @@ func (t *websocketTransport) Send(ctx context.Context, e envelope) error {
 		// The websocket connection only applies its write deadline before the
 		// next write, so also interrupt a write that is already blocked.
 		_ = conn.UnderlyingConn().SetWriteDeadline(time.Now())
-		<-errChan
+		if err := <-errChan; err == nil {
+			// The envelope was completely written before it could be interrupted, so it
+			// was sent: report it, and clear the deadlines that would fail the next writes.
+			_ = conn.SetWriteDeadline(time.Time{})
+			_ = conn.UnderlyingConn().SetWriteDeadline(time.Time{})
+			return nil
+		}
 		return fmt.Errorf("ws transport: send: %w", ctx.Err())
 	case err := <-errChan:
 		if err != nil {
